@@ -34,8 +34,16 @@ inline int plus_s_linear(const State& s, unsigned unit) {
     uint16_t step7 = (uint16_t)(j ? s[flat::F_stepj] : s[flat::F_stepi]);
     uint16_t step16 = (uint16_t)(j ? s[flat::F_stepj0] : s[flat::F_stepi0]);
     bool use16 = (s[flat::F_br + unit] && !s[flat::F_m + unit]) || (s[flat::F_stp16] && !s[flat::F_cmd]);
-    if (use16)
+    if (use16) {
+        // Teak mode with 16-bit steps: a register whose modulo bit is set takes only the low nine bits of the step (sign-extended),
+        // also when the modulo arithmetic itself is bypassed by the instruction or by bit reversal (behaviour of the hardware-validated
+        // code, kept as a regression oracle)
+        if (s[flat::F_stp16] && !s[flat::F_cmd] && s[flat::F_m + unit]) {
+            int v = step16 & 0x1FF;
+            return (v & 0x100) ? v - 0x200 : v;
+        }
         return (int)(int16_t)step16;
+    }
     return (step7 & 0x40) ? (int)step7 - 128 : (int)step7;
 }
 
@@ -59,10 +67,6 @@ inline std::optional<uint16_t> step(const State& s, unsigned unit, uint16_t r, S
             break;
         case PlusS:
             d = plus_s_linear(s, unit);
-            // with modulo *enabled but bypassed* the 16-bit step is narrowed to 9 bits by the hardware; outside the
-            // property's statement
-            if (s[flat::F_m + unit] && s[flat::F_stp16] && !s[flat::F_cmd])
-                return std::nullopt;
             break;
         case Inc2:
         case Inc2M2:
